@@ -5,7 +5,15 @@ let vres = function VOk -> "Ok" | VErrStab -> "ErrStab" | VErrStabLog -> "ErrSta
 let nd flag s =
   let rows = rows_of_string s in
   if flag = '1' then (match rows with [v] -> A1 v | _ -> failwith "1-d operand needs exactly one row") else A2 rows
+(* codes DEFINED BY PAULI STRINGS (BasicCode): comma separated words over IXYZ; the model converts the strings
+   itself (Core/CodeP.code_of = mkCode (map to_bsf ..)), validates, and publishes the matrices and the stacked logicals *)
+let pl_of_char = function 'I' -> PI | 'X' -> PX | 'Y' -> PY | 'Z' -> PZ | _ -> failwith "letter"
+let pstrs s = List.map (fun w -> List.init (String.length w) (fun i -> pl_of_char w.[i])) (split ',' s)
 let dispatch = function
+  | ["basic"; s; x; z] ->
+      let c = code_of (pstrs s) (pstrs x) (pstrs z) in
+      String.concat "|" [vres (validate c); string_of_rows c.stabs; string_of_rows c.lxs; string_of_rows c.lzs;
+                         string_of_rows (logicals c)]
   | ["validate"; s; x; z] -> vres (validate { stabs = rows_of_string s; lxs = rows_of_string x; lzs = rows_of_string z })
   | ["vfast"; s; x; z] -> vres (validate_fast { stabs = rows_of_string s; lxs = rows_of_string x; lzs = rows_of_string z })
   | ["validate_nd"; f; s; x; z] when String.length f = 3 -> vres (validate_nd (nd f.[0] s) (nd f.[1] x) (nd f.[2] z))
